@@ -22,7 +22,7 @@ func c15Norm(s string) string { return strings.Join(strings.Fields(s), " ") }
 // contiguous part of the <title> text (raw or whitespace-normalised) or the
 // text of the first <h1>.
 func HarnessC15NoInvention() {
-	h1 := []string{"", "<h1>ab a</h1>", "<h1> b  a </h1><h1>zz</h1>"}[vx.Choose("h1", 3)]
+	h1 := []string{"", "<h1>ab a</h1>", "<h1> b  a </h1><h1>zz</h1>", "<h2>an h2 heading of five words</h2>", "<h2>an h2 heading of five words</h2><h1>ab a</h1>"}[vx.Choose("h1", 5)]
 	doc := vx.ParseHTML(`<html><head><title>X</title></head><body>` + h1 + `<p>b</p></body></html>`)
 	t := dom.QuerySelector(doc, "title")
 	title := vx.NondetStringIn("title", vx.Param("title", 5), "a -|:/>")
@@ -144,7 +144,18 @@ func HarnessC15NotRepeated() {
 	block := []string{"<h1>%s</h1>", "<h2>%s</h2>", "<p>%s</p>", "<div><b>%s</b></div>"}[vx.Choose("block", 4)]
 	block = strings.Replace(block, "%s", rep, 1)
 	para := `<p>` + strings.Repeat("filler words for the article body ", 8) + `</p>`
-	doc := vx.ParseHTML(`<html><head><title>` + sh[0] + `</title></head><body><div>` + block + para + para + `</div></body></html>`)
+	headTitle := sh[0]
+	meta := ""
+	if vx.Choose("markuptitle", 2) == 1 {
+		// the title comes from markup (og:title, possibly with NBSP inside); <title> differs
+		mt := sh[1]
+		if vx.Choose("mtnbsp", 2) == 1 {
+			mt = strings.Replace(mt, " ", "&nbsp;", 1)
+		}
+		meta = `<meta property="og:title" content="` + strings.ReplaceAll(mt, `'`, "&#39;") + `"><meta property="og:type" content="article"><meta property="og:url" content="http://h.t/a"><meta property="og:image" content="http://h.t/i.png">`
+		headTitle = "Some other window title"
+	}
+	doc := vx.ParseHTML(`<html><head><title>` + headTitle + `</title>` + meta + `</head><body><div>` + block + para + para + `</div></body></html>`)
 	ce := NewContentExtractor(dom.QuerySelector(doc, "html"), nil, nil)
 	ce.WordCounter = c15Words{}
 	title := ce.ExtractTitle()
@@ -155,7 +166,8 @@ func HarnessC15NotRepeated() {
 	}
 	text := c15Norm(strings.ReplaceAll(wd.GenerateOutput(true), " ", " "))
 	vx.Cover("title")
-	if c15Norm(sh[1]) == title {
+	if c15Norm(sh[1]) == c15Norm(strings.ReplaceAll(title, " ", " ")) {
+		title = c15Norm(strings.ReplaceAll(title, " ", " "))
 		vx.Cover("title-is-block")
 		vx.Assert(!strings.Contains(text, title), "the block whose text is the title is emitted again in the content (title '"+title+"')")
 	}
